@@ -10,7 +10,7 @@ from fractions import Fraction
 
 from ..backends import backend_paths, reachable
 from ..kai import Arr, TupleV, cond_repr, interpret, flatten_and
-from ..kutil import (returned_arrays, Spec, approx_equal, eval_cond, eval_rat, find_loops_over, guard_atoms, numeric, offsets,
+from ..kutil import (CannotEvaluate, evaluate, returned_arrays, Spec, approx_equal, eval_cond, eval_rat, find_loops_over, guard_atoms, numeric, offsets,
                      reads_in, show)
 from ..program import AnalysisIncomplete, Func, norm
 from ..sym import App, Rat, Sym, subst, walk_atoms
@@ -275,6 +275,7 @@ def check_slope(prog, rep):
                 'differences); got %s' % show(s.value, 300))
         rep.add('L-unguarded', kern, entry, norm(s.node), s.node.lineno, not s.guards,
                 'slope is defined for every interior cell; store is guarded by %s' % [cond_repr(g)[:80] for g in s.guards])
+    nan_containment(rep, kern, entry, stores, data)
     return kern
 
 
@@ -358,6 +359,7 @@ def check_aspect(prog, rep):
     sp = Spec(prog, spec_env(data, yv, xv))
     sp.run(SPEC_GRAD)
     dzdx, dzdy = sp['dz_dx'], sp['dz_dy']
+    nan_containment(rep, kern, entry, stores, data)
     flat = [s for s in stores if s.value.is_const()]
     nonflat = [s for s in stores if not s.value.is_const()]
     # flat: guarded by dz_dx == 0 and dz_dy == 0 ; value -1
@@ -418,8 +420,70 @@ def check_curvature(prog, rep):
                 'stored value must be -2(D+E)*100 with D, E the second differences along rows and columns over '
                 'cellsize^2 (5-point Laplacian); got %s' % show(s.value, 300))
         rep.add('L-unguarded', kern, entry, norm(s.node), s.node.lineno, not s.guards, 'store must be unconditional')
+    nan_containment(rep, kern, entry, stores, data)
     cellsize_binding(prog, rep, pub, path, f0, kern, kern.params, {'cellsize': '(cellsize_x + cellsize_y) / 2'})
     return kern
+
+
+def nan_containment(rep, kern, entry, stores, data):
+    """L3-nan: the formulas are arithmetic in the cells of the window, so a NaN cell the formula reads makes the result
+    NaN.  For every window cell A that any store reads (in its value or its guards): with A = NaN and the other cells at
+    two finite settings (all equal - every difference is 0 - and all different), every store whose guards hold under IEEE
+    comparison rules (a comparison with NaN is false, `!=` true, `not` of a false test true) must store a value that
+    depends on A - a constant chosen by a test that NaN fails (`0. if dz_dy > 0 else 180.`) is a number where the formula
+    gives NaN."""
+    cells = set()
+    for s in stores:
+        for a in walk_atoms((s.value, tuple(s.guards))):
+            if isinstance(a, App) and a.name == 'read' and a.args[0] == data:
+                cells.add(a)
+    cells = sorted(cells, key=repr)
+
+    def ev(c, nan, env):
+        if c[0] == 'cmp':
+            d = c[2] if isinstance(c[2], Rat) else c[3]
+            if nan in walk_atoms(d):
+                return c[1] == '!='
+            v = evaluate(d, env)
+            return {'==': v == 0, '!=': v != 0, '<': v < 0, '<=': v <= 0}[c[1]]
+        if c[0] in ('and', 'or'):
+            vals = [ev(x, nan, env) for x in c[1:]]
+            return all(vals) if c[0] == 'and' else any(vals)
+        if c[0] == 'not':
+            return not ev(c[1], nan, env)
+        if c[0] == 'const':
+            return bool(c[1])
+        if c[0] == 'truth':
+            return True if nan in walk_atoms(c[1]) else evaluate(c[1], env) != 0
+        raise CannotEvaluate(repr(c))
+    def val_nan(x, nan, env):
+        """is the stored value NaN?  arithmetic on NaN is NaN; a conditional value is the arm the (IEEE) test selects"""
+        if isinstance(x, Rat):
+            return any(val_nan(a, nan, env) for a in x.atoms())
+        if x == nan:
+            return True
+        if isinstance(x, App):
+            if x.name == 'ite':
+                return val_nan(x.args[1] if ev(x.args[0], nan, env) else x.args[2], nan, env)
+            return any(val_nan(a, nan, env) for a in x.args if isinstance(a, (Rat, App, Sym)))
+        return False
+    bad = []
+    n = 0
+    try:
+        for nan in cells:
+            for setting in ('equal', 'different'):
+                env = {a: Fraction(7 if setting == 'equal' else 3 + 5 * i * i) for i, a in enumerate(cells)}
+                for p_ in kern.params:
+                    env[Sym(p_)] = Fraction(3)
+                for s in stores:
+                    n += 1
+                    if all(ev(g, nan, env) for g in s.guards) and not val_nan(s.value, nan, env):
+                        bad.append('with %s = NaN and the other cells %s, `%s` stores %s' % (show(nan), setting, norm(s.node)[:60], show(s.value, 60)))
+    except (CannotEvaluate, KeyError, ZeroDivisionError) as e:
+        rep.add('L3-nan', kern, entry, 'NaN in the window', kern.node.lineno, None, 'guards not evaluable: %s' % e)
+        return
+    rep.add('L3-nan', kern, entry, 'a NaN cell the formula reads gives NaN (%d cells x 2 settings x %d stores)' % (len(cells), len(stores)),
+            kern.node.lineno, not bad, 'the documented formula is arithmetic in the window cells: ' + '; '.join(bad[:2]), facts={'evaluations': n})
 
 
 def zero_sum(rep, kern, entry, k, data):
